@@ -70,6 +70,11 @@ theorem c07_ranges_inv_run (ops : List Op) : Ranges.Inv (run [] ops) := by
     | removeFirst e => exact removeFirst_inv e h
     | prune e => exact prune_inv e h
 
+/-- after every sequence of operations the cached heights are strictly ascending (no duplicates, no reordering): what the loop
+    hands to the Store is in chain order -/
+theorem c07_pending_strictly_ascending (ops : List Op) : (heights (run [] ops)).Pairwise (· < ·) :=
+  heights_sorted (c07_ranges_inv_run ops)
+
 /-- the pending set is an ascending log of heads: `Add` records a head iff it is above everything cached -/
 theorem c07_add_records_new_heads (rs : Ranges) (h : Nat) (hi : Ranges.Inv rs) :
     heights (add rs h) = if (heights rs).all (· < h) then heights rs ++ [h] else heights rs := by
